@@ -19,7 +19,7 @@ def check(run):
         S + '::add_timer': 'sorted insert', S + '::remove_timer': 'erase one', S + '::run': 'erase front before fire'},
         required=[S + '::add_timer', S + '::remove_timer', S + '::run'])
     engines.r2_writer_table(run, T + '::m_expired', {
-        T + '::high_resolution_timer': 'constructed expired', T + '::cancel': 'leaves queue', T + '::expires_at': 're-arm', T + '::expires_after': 're-arm', T + '::fire': 'fired'},
+        T + '::high_resolution_timer': 'constructed expired', T + '::cancel': 'leaves queue', T + '::cancel_one': 'leaves queue (same pairing as cancel, checked below; normally delegates to cancel)', T + '::expires_at': 're-arm', T + '::expires_after': 're-arm', T + '::fire': 'fired'},
         required=[T + '::cancel', T + '::fire', T + '::expires_at', T + '::expires_after'])
     engines.r2_writer_table(run, T + '::m_expiration_time', {
         T + '::high_resolution_timer': 'initial', T + '::expires_at': 're-arm', T + '::expires_after': 're-arm'},
@@ -46,6 +46,14 @@ def check(run):
     fires = calls(cn, 'high_resolution_timer::fire')
     run.check(bool(trues) and all(q.must_follow(cn, t, removes) for t in trues) and all(q.any_precedes(cn, trues, r) for r in removes), 'R4', 'expired-implies-dequeued',
               T + '::cancel', cn.loc(), 'cancel() does not pair m_expired=true with remove_timer(this) on every path', 'm_expired=true is paired with remove_timer(this)')
+    for co in fx.fn(T + '::cancel_one', required=False):
+        t1 = exp_writes(co, True)
+        if not t1:
+            continue            # delegates to cancel()
+        run.touch(co)
+        r1 = [c for c in calls(co, 'io_context::remove_timer') if c.get('args') and q.is_this(c['args'][0])]
+        run.check(all(q.must_follow(co, t, r1) for t in t1) and all(q.any_precedes(co, t1, r) for r in r1) and bool(r1), 'R4', 'expired-implies-dequeued',
+                  T + '::cancel_one', co.loc(), 'cancel_one() does not pair m_expired=true with remove_timer(this) on every path', 'm_expired=true is paired with remove_timer(this)')
     fr_ = fx.fn1(T + '::fire')
 
     def fire_counts():
